@@ -42,6 +42,8 @@ type Runtime struct {
 	// Continuation pools, disable with the nocontpool build tag.
 	luaContPool luaContPool
 	goContPool  goContPool
+
+	verifState verifRuntimeState // empty unless built with the verif tag
 }
 
 type runtimeOptions struct {
